@@ -52,6 +52,9 @@ def run_fixture():
 
 
 def run(eng, ctx):
+    from . import shared as _SH
+
+    _SH.class_level_state(eng, ctx, "C13.D6")
     problems, nfix = run_fixture()
     for p in problems:
         ctx.error(f"C13 fixture: {p}")
